@@ -1,5 +1,7 @@
 import HC.Proofs.Verify
 import HC.Proofs.VerifyTotal
+import HC.Proofs.ApplyTotal
+import HC.Props.C05
 /-!
 # C09 — no request or proof from a peer can panic the node
 
@@ -17,11 +19,26 @@ also a panic: it means non-termination).
   never moves the right edge of the subtree to the left), the grow loop consumes a queued node per round,
   the descent for additional nodes halves a power-of-two factor per round.
 
-Partial (`…_partial` stays on `verify_tree_total_partial` as the name the evidence refers to): the
-proof-construction side (`create_valueless_proof`) and the application step after verification
-(`byte_offset_in_changeset`, which walks the replica's own tree) are not proved total; their panic sites
-are listed in the table of `HC/Model/Proof.lean` and exercised by the correspondence run (arbitrary
-request tuples at boundary values, the C04 alteration set, added sections and arbitrary proofs under
+* **`create_valueless_proof_total`, `create_proof_total`** : the sending side.  For every tree whose roots sit
+  at the root positions of its length (`RootShape`: true of every state of a writer, `serve_along_history`, of
+  every replica reached by honest exchanges, `serve_on_synced_replica`, and of the empty tree), every store
+  content and **every request** — any node counts, any seek offset, any upgrade window, block indices below
+  2^63 and tree-node indices below 2^65 − 1 (the `u64` domain; the property bounds fields by 2^40) — the answer
+  is a proof or an error.  Climbs are entered only when the root contains the start (the guard of the
+  repaired tree) and reach it after `depth root − depth start` steps; descents lose one level per round; the
+  loop over the full roots at least halves the remaining leaves per round; `nodes_to_root` cannot climb
+  beyond depth 64 because above it every ancestor contains the head.
+* **`verify_and_apply_total`** : the receiving side at core level — verification, the byte offset of the block
+  under the new roots (a walk of the replica's own tree), oplog entry, bitfield, tree commit and flush — returns
+  `true`, `false` or an error for **every** proof; the commit's panic site (a truncating commit) is unreachable
+  because the changeset `verify_proof` returns keeps `ancestors` and the original length of the tree's own
+  changeset (`verify_proof_keeps`).
+
+`verify_tree_total_partial` keeps its name (the evidence refers to it); it is total.  What the theorems do not
+cover: `u64` arithmetic overflow (the model computes in `Nat`; requests with fields ≥ 2^63 do overflow in the
+Rust, outside the property's 2^40 bound) and `RootShape` after an *arbitrary accepted* proof on a replica (it is
+shown for writers and for honest exchanges); both are exercised by the correspondence run (arbitrary request
+tuples at boundary values and inside the log, the C04 alteration set, added sections and arbitrary proofs under
 `catch_unwind` with a watchdog; the model's outcome class is compared).
 -/
 namespace HC.C09
@@ -42,5 +59,59 @@ theorem verify_upgrade_total (C : Crypto) (fork : Nat) (u : DataUpgrade) (blockR
 
 theorem verify_proof_total (C : Crypto) (t : Tree) (f : File) (p : Proof) (pk : Bytes) :
     verifyProof C t f p pk ≠ .error .panic := verifyProof_notPanic C t f p pk
+
+/-- the changeset `verify_proof` returns keeps the two numbers the commit's panic site compares -/
+theorem verify_proof_keeps (C : Crypto) (t : Tree) (f : File) (p : Proof) (pk : Bytes) (cs : Changeset)
+    (h : verifyProof C t f p pk = .ok cs) : cs.ancestors = t.length ∧ cs.origLength = t.length :=
+  ApplyTotal.verifyProof_keeps C t f p pk cs h
+
+/-- **the sending side is total at tree level** -/
+theorem create_valueless_proof_total (t : Tree) (f : File) (hT : CreateTotal.RootShape t) (block hash : Option RequestBlock)
+    (seek : Option RequestSeek) (upgrade : Option RequestUpgrade)
+    (hb : ∀ b, block = some b → b.index < 2 ^ 63) (hh : ∀ h, hash = some h → h.index < 2 ^ 65 - 1) :
+    t.createValuelessProof f block hash seek upgrade ≠ .error .panic :=
+  CreateTotal.create_total t f hT block hash seek upgrade hb hh
+
+/-- **`create_proof` is total** -/
+theorem create_proof_total (c : Core) (d : Disk) (hT : CreateTotal.RootShape c.tree) (block hash : Option RequestBlock)
+    (seek : Option RequestSeek) (upgrade : Option RequestUpgrade)
+    (hb : ∀ b, block = some b → b.index < 2 ^ 63) (hh : ∀ h, hash = some h → h.index < 2 ^ 65 - 1) :
+    (c.createProof d block hash seek upgrade).result ≠ .error .panic :=
+  ApplyTotal.createProof_total c d hT block hash seek upgrade hb hh
+
+/-- **`verify_and_apply_proof` is total** -/
+theorem verify_and_apply_total (C : Crypto) (c : Core) (d : Disk) (hT : CreateTotal.RootShape c.tree) (p : Proof) :
+    (c.verifyAndApply C d p).result ≠ .error .panic :=
+  ApplyTotal.verifyAndApply_total C c d hT p
+
+section Model
+open HC.LogSpec HC.LiveRefine HC.TreeStore HC.Persist HC.C01
+
+/-- along every history of a writer (calls and reopen steps) the core answers every request without panic -/
+theorem serve_along_history (C : Crypto) (hC : HashWF C) (hS : SignWF C) (hTw : TreeWF C) (pk sk : Bytes)
+    (hpk : pk.length = 32) (hsk : sk.length = 32) (steps : List HStep) (hok : AllOK {} steps)
+    (block hash : Option RequestBlock) (seek : Option RequestSeek) (upgrade : Option RequestUpgrade)
+    (hb : ∀ b, block = some b → b.index < 2 ^ 63) (hh : ∀ h, hash = some h → h.index < 2 ^ 65 - 1) :
+    ∃ c j, Core.openCore C (some (pk, some sk)) {} = .ok (c, j) ∧
+      ((runC' C (c, ({} : Disk).applyAll j) steps).1.1.createProof (runC' C (c, ({} : Disk).applyAll j) steps).1.2
+          block hash seek upgrade).result ≠ Except.error Fail.panic := by
+  obtain ⟨c, j, h1, h2, h3⟩ := init_both C pk sk hpk hsk
+  obtain ⟨hrep, _⟩ := C02.history_invariants_reopen C hC hS hTw steps c _ {} _ {} [] h2 h3 hok
+  refine ⟨c, j, h1, ?_⟩
+  exact create_proof_total _ _ (ApplyTotal.rootShape_of_rootsOK C _ _ hrep.tree hrep.small.1) block hash seek upgrade hb hh
+
+end Model
+
+/-- a replica reached by honest exchanges answers every request and survives every proof without panic -/
+theorem serve_on_synced_replica (C : Crypto) (hC : TreeStore.HashWF C) (bs : Array Bytes) (tw : Tree) (fw : File) (pk sig : Bytes)
+    (hW : Sync.Writer C bs tw fw pk sig) (fr : File) (tr : Tree) (h : Sync.Reach C bs tw fw pk fr tr) :
+    CreateTotal.RootShape tr := by
+  obtain ⟨hS, hr, _⟩ := Sync.reach_sparse C hC bs tw fw pk sig hW fr tr h
+  apply ApplyTotal.rootShape_of_roots tr bs.size hW.small hS.length
+  rw [hr]
+  simp [RefTree.roots, List.map_map, Function.comp_def, TreeStore.nodeAt_index]
+
+/-- non-vacuity: the empty tree has the shape -/
+example : CreateTotal.RootShape {} := ApplyTotal.rootShape_empty
 
 end HC.C09
